@@ -61,7 +61,7 @@ func runC11Reset(sum *Summary) error {
 	cancel()
 	// let the report of the reset reach the queue
 	time.Sleep(200 * time.Millisecond)
-	wctx, wcancel := context.WithTimeout(context.Background(), 8*time.Second)
+	wctx, wcancel := context.WithTimeout(context.Background(), 25*time.Second)
 	defer wcancel()
 	w := q.Add(wctx, "t", 3)
 	sum.Evaluations++
@@ -87,7 +87,7 @@ func runC11Reset(sum *Summary) error {
 			li, _ := node.leaderIndex("t")
 			sum.violate(9701, "a caller waiting for a revision that has been applied is not answered (answered with an error after its deadline)", in, fmt.Sprintf("%v; the table's leader index is %d", werr, li))
 		}
-	case <-time.After(12 * time.Second):
+	case <-time.After(30 * time.Second):
 		sum.violate(9701, "a caller waiting for a revision that has been applied is never answered", in, nil)
 	}
 	return nil
